@@ -367,6 +367,10 @@ func (c07) RunCase(c *core.Ctx) {
 		c07OddShapes(c)
 		return
 	}
+	if c.Case%64 == 44 {
+		c07Carry(c)
+		return
+	}
 	if c.Case%32 == 11 {
 		// the same call twice, the caller editing its first result in between: the second result does not depend on that
 		name, problem := dDefaultsIndependent(c.R)
@@ -420,7 +424,10 @@ func c07OddShapes(c *core.Ctx) {
 		// a callback that looks up context values nobody passed to this call (under the empty key too)
 		var seen []any
 		var s0 string
-		z.String().TestFunc(func(v any, ctx z.Ctx) bool { seen = append(seen, ctx.Get(""), ctx.Get("lang"), ctx.Get("tenant")); return true }).Parse("x", &s0)
+		z.String().TestFunc(func(v any, ctx z.Ctx) bool {
+			seen = append(seen, ctx.Get(""), ctx.Get("lang"), ctx.Get("tenant"))
+			return true
+		}).Parse("x", &s0)
 		for _, x := range seen {
 			if x != nil {
 				return fmt.Sprintf("a call without context values saw ctx.Get(\"\"), ctx.Get(lang), ctx.Get(tenant) = %v", seen)
@@ -510,6 +517,80 @@ func c07OddShapes(c *core.Ctx) {
 		c.NonTrivial(fpf("odd|%s|%d", what, round))
 	}
 	c.Count("odd_shape_histories", 1)
+}
+
+// c07Carry: three ways an earlier call could reach into a later one. (a) a custom test that puts the application's own params map on
+// its issue; the result is handed to Collect; a built-in test fails elsewhere; the custom test fails again: its params are still the
+// application's. (b) an execution formatter that declines to word some issue: whatever text that issue gets, it is not the text of a
+// global formatter that is no longer installed. (c) the same memory validated first as a field of a larger value, then on its own:
+// the paths are those of the call at hand.
+func c07Carry(c *core.Ctx) {
+	mine := map[string]any{"list": "denylist-7"}
+	custom := z.String().Test(z.Test{Func: func(v any, ctx z.Ctx) {
+		ctx.AddIssue(ctx.Issue().SetCode("denied").SetMessage("denied").SetParams(mine))
+	}})
+	for round := 0; round < 4; round++ {
+		var s string
+		l := custom.Parse("x", &s)
+		c.Eval(3)
+		if len(l) != 1 || fmt.Sprint(l[0].Params) != "map[list:denylist-7]" || fmt.Sprint(mine) != "map[list:denylist-7]" {
+			c.Violation("execution-not-isolated|params-of-a-custom-issue", map[string]any{"round": round, "issue_params": fmt.Sprint(l[0].Params), "the_applications_map": fmt.Sprint(mine), "want": "map[list:denylist-7] both", "history": "custom issue with SetParams(the application's map) -> Issues.CollectList -> String().Min(5) / OneOf failing -> the custom test again"})
+			return
+		}
+		z.Issues.CollectList(l)
+		var t string
+		z.Issues.CollectList(z.String().Min(5).OneOf([]string{"alpha", "bravo"}).Parse("ab", &t))
+		var n int
+		z.Int().GT(9).Parse(1, &n)
+	}
+	saved := conf.IssueFormatter
+	defer func() { conf.IssueFormatter = saved }()
+	decline := z.WithIssueFormatter(func(e *z.ZogIssue, ctx z.Ctx) {
+		if e.Code == "email" {
+			e.SetMessage("worded by the execution formatter")
+		}
+	})
+	textUnder := func(opts ...z.ExecOption) string {
+		var s string
+		l := z.String().Min(5).Parse("ab", &s, opts...)
+		if len(l) != 1 {
+			return fmt.Sprintf("%d issues", len(l))
+		}
+		return l[0].Message
+	}
+	i18n.SetLanguagesErrsMap(map[string]zconst.LangMap{"en": en.Map, "es": es.Map}, "en")
+	enText, declinedEn := textUnder(), textUnder(decline)
+	i18n.SetLanguagesErrsMap(map[string]zconst.LangMap{"en": en.Map, "es": es.Map}, "es")
+	esText, declinedEs := textUnder(), textUnder(decline)
+	conf.IssueFormatter = saved
+	c.Eval(4)
+	if enText == esText || (declinedEs != "" && declinedEs != esText) || (declinedEn != "" && declinedEn != enText) {
+		c.Violation("execution-not-isolated|configuration-of-an-earlier-moment", map[string]any{"global_formatter_english": enText, "global_formatter_spanish": esText, "execution_formatter_declining_under_english": declinedEn, "execution_formatter_declining_under_spanish": declinedEs, "want": "the declined issue is left without text or gets the text of the global formatter installed at that moment"})
+		return
+	}
+	type article struct {
+		Title string
+		Tags  []string
+		Inner struct{ Note string }
+	}
+	artSchema := z.Struct(z.Schema{"title": z.String().Required(), "tags": z.Slice(z.String().Min(3)), "inner": z.Struct(z.Schema{"note": z.String().Min(3)})})
+	tagsSchema := z.Slice(z.String().Min(3))
+	innerSchema := z.Struct(z.Schema{"note": z.String().Min(3)})
+	a := article{Title: "t", Tags: []string{"long enough", "x"}}
+	a.Inner.Note = "n"
+	for round := 0; round < 5; round++ {
+		k1 := dKeys(artSchema.Validate(&a))
+		k2 := dKeys(tagsSchema.Validate(&a.Tags))
+		k3 := dKeys(innerSchema.Validate(&a.Inner))
+		k4 := dKeys(tagsSchema.Validate(&a.Tags))
+		c.Eval(4)
+		if k1 != "inner.note, tags[1]" || k2 != "[1]" || k3 != "note" || k4 != "[1]" {
+			c.Violation("execution-not-isolated|paths-of-an-earlier-call", map[string]any{"round": round, "Validate(&article)": k1, "Validate(&article.Tags)": k2, "Validate(&article.Inner)": k3, "Validate(&article.Tags) again": k4, "want": "inner.note, tags[1] / [1] / note / [1]"})
+			return
+		}
+	}
+	c.NonTrivial(fpf("carry|%d", c.Case))
+	c.Count("carry_histories", 1)
 }
 
 // c07LiveLanguages: "the global configuration at that moment": the language maps handed to i18n are read when an issue is formatted,
